@@ -885,7 +885,11 @@ impl ContinuityStore {
         };
 
         let workspace = workspace_key(&self.workspace_root);
-        let thread_id = self.create_continuity(workspace, None, title, false)?;
+        // The creation frame publishes the new thread's id; the seq mutex is held until the
+        // lineage frame (seq 1) is appended so that a message to the new thread cannot take seq 1.
+        let mut next_seq = self.next_seq.lock().expect("continuity seq mutex");
+        let thread_id =
+            self.create_continuity_locked(&mut next_seq, workspace, None, title, false)?;
 
         let event = Event {
             id: Uuid::new_v4().to_string(),
@@ -906,10 +910,8 @@ impl ContinuityStore {
         self.stream_cache.append_best_effort(&event);
         let _ = self.sender.send(event.clone());
 
-        self.next_seq
-            .lock()
-            .expect("continuity seq mutex")
-            .insert(thread_id.clone(), 2);
+        next_seq.insert(thread_id.clone(), 2);
+        drop(next_seq);
 
         Ok((thread_id, parent_seq, parent_message_id))
     }
@@ -1009,7 +1011,10 @@ impl ContinuityStore {
         }
 
         let workspace = workspace_key(&self.workspace_root);
-        let thread_id = self.create_continuity(workspace, None, title, false)?;
+        // As in branch: the seq mutex is held from the creation frame to the lineage frame.
+        let mut next_seq = self.next_seq.lock().expect("continuity seq mutex");
+        let thread_id =
+            self.create_continuity_locked(&mut next_seq, workspace, None, title, false)?;
 
         if summary_artifact_id.is_none() {
             if let Some(markdown) = summary_markdown.as_ref() {
@@ -1047,10 +1052,8 @@ impl ContinuityStore {
         self.stream_cache.append_best_effort(&event);
         let _ = self.sender.send(event.clone());
 
-        self.next_seq
-            .lock()
-            .expect("continuity seq mutex")
-            .insert(thread_id.clone(), 2);
+        next_seq.insert(thread_id.clone(), 2);
+        drop(next_seq);
 
         Ok((thread_id, from_seq, from_message_id))
     }
@@ -3540,6 +3543,20 @@ impl ContinuityStore {
         title: Option<String>,
         set_as_default: bool,
     ) -> Result<String, String> {
+        let mut next_seq = self.next_seq.lock().expect("continuity seq mutex");
+        self.create_continuity_locked(&mut next_seq, workspace, continuity_id, title, set_as_default)
+    }
+
+    /// Creates the stream while the caller holds the seq mutex, so that a caller that goes on
+    /// to append the stream's second frame (branch, handoff) cannot be overtaken.
+    fn create_continuity_locked(
+        &self,
+        next_seq: &mut HashMap<String, u64>,
+        workspace: String,
+        continuity_id: Option<String>,
+        title: Option<String>,
+        set_as_default: bool,
+    ) -> Result<String, String> {
         let continuity_id = continuity_id.unwrap_or_else(|| Uuid::new_v4().to_string());
         let timestamp_ms = now_ms();
         let created = Event {
@@ -3575,10 +3592,7 @@ impl ContinuityStore {
                 .map_err(|err| format!("save continuity index: {err}"))?;
         }
 
-        self.next_seq
-            .lock()
-            .expect("continuity seq mutex")
-            .insert(continuity_id.clone(), 1);
+        next_seq.insert(continuity_id.clone(), 1);
 
         Ok(continuity_id)
     }
